@@ -151,6 +151,14 @@ fn check_batch(acc: &mut Acc, c: &Cfg, l: &Luts, base: u64, ys: &[u16], us: &[u1
     });
 }
 
+fn run_items(acc: &mut Acc, c: &Cfg, l: &Luts, it: &[[u16; 3]]) {
+    let (ys, us, vs): (Vec<u16>, Vec<u16>, Vec<u16>) = (it.iter().map(|t| t[0]).collect(), it.iter().map(|t| t[1]).collect(), it.iter().map(|t| t[2]).collect());
+    check_batch(acc, c, l, 0, &ys, &us, &vs);
+}
+fn items_from(v: &Value) -> Vec<[u16; 3]> {
+    v.as_array().unwrap().iter().map(|t| [t[0].as_u64().unwrap() as u16, t[1].as_u64().unwrap() as u16, t[2].as_u64().unwrap() as u16]).collect()
+}
+
 pub fn run(tier: Tier) -> Report {
     let mut rep = Report::new("C01");
     let cfgs = configs();
@@ -171,6 +179,8 @@ pub fn run(tier: Tier) -> Report {
                     vs.push(t[2]);
                 }
                 check_batch(acc, c, &l, base + lo, &ys, &us, &vs);
+                let items: Vec<[u16; 3]> = (0..ys.len()).map(|i| [ys[i], us[i], vs[i]]).collect();
+                refine_violations(acc, base + lo, &items, 1, &|a, it| run_items(a, c, &l, it), &|it| json!(it));
                 if lo == 0 && c.m == MC::BT709 && c.n == 8 && !c.wide {
                     acc.sample(json!({"cfg": c.json(), "first_triple": [ys[0],us[0],vs[0]], "last_triple_of_chunk": [ys[len-1],us[len-1],vs[len-1]]}));
                 }
@@ -208,7 +218,8 @@ pub fn replay(case: &Value) -> (bool, String) {
     let t: Vec<u16> = case["yuv"].as_array().unwrap().iter().map(|v| v.as_u64().unwrap() as u16).collect();
     let l = luts(c.n as u32, c.full);
     let mut acc = Acc::default();
-    check_batch(&mut acc, &c, &l, 0, &[t[0]], &[t[1]], &[t[2]]);
+    let (items, shape) = replay_items(case, vec![[t[0], t[1], t[2]]], &items_from);
+    with_shape(shape, || run_items(&mut acc, &c, &l, &items));
     match acc.viols.values().next() {
         Some(v) => (true, format!("{} :: {}", v.key, v.detail)),
         None => (false, format!("ok worst={:?}", acc.worst.values().next().map(|w| w.0))),
